@@ -40,8 +40,7 @@ class DocActions(object):
     if not row_ids:
       return
 
-    # Collect the undo values, and unset all values in the column (i.e. set to defaults), just to
-    # make sure we don't have stale values hanging around.
+    # Collect the undo values.
     undo_values = {}
     for column in table.all_columns.values():
       if not column.is_private() and column.col_id != "id":
@@ -50,13 +49,18 @@ class DocActions(object):
         # If this column had all default values, don't include it into the undo BulkAddRecord.
         if not all(strict_equal(val, default) for val in col_values):
           undo_values[column.col_id] = col_values
-      for row_id in row_ids:
-        column.unset(row_id)
 
-    # Generate the undo action.
+    # Generate the undo action. This is done before changing anything, so that if we fail
+    # part-way, the changes already made can be reverted.
     self._engine.out_actions.undo.append(
         actions.BulkAddRecord(table_id, row_ids, undo_values).simplify())
     self._engine.out_actions.summary.remove_records(table_id, row_ids)
+
+    # Unset all values in the column (i.e. set to defaults), just to make sure we don't have
+    # stale values hanging around.
+    for column in table.all_columns.values():
+      for row_id in row_ids:
+        column.unset(row_id)
 
     # Invalidate the deleted rows, so that anything that depends on them gets recomputed.
     self._engine.invalidate_records(table_id, row_ids)
@@ -71,11 +75,20 @@ class DocActions(object):
       assert row_id in table.row_ids, \
           "docactions.[Bulk]UpdateRecord for non-existent record #%s" % row_id
 
-    # Load the updated values.
+    # Collect the undo values.
     undo_values = {}
-    for col_id, values in columns.items():
+    for col_id in columns:
       col = table.get_column(col_id)
       undo_values[col_id] = [col.raw_get(r) for r in row_ids]
+
+    # Generate the undo action. This is done before changing anything, so that if we fail
+    # part-way (e.g. on an unknown column), the changes already made can be reverted.
+    self._engine.out_actions.undo.append(
+        actions.BulkUpdateRecord(table_id, row_ids, undo_values).simplify())
+
+    # Load the updated values.
+    for col_id, values in columns.items():
+      col = table.get_column(col_id)
       for (row_id, value) in zip(row_ids, values):
         col.set(row_id, value)
 
@@ -84,10 +97,6 @@ class DocActions(object):
       # even if triggered by something else within the same useraction).
       if not col.is_formula():
         self._engine.prevent_recalc(col.node, row_ids, should_prevent=True)
-
-    # Generate the undo action.
-    self._engine.out_actions.undo.append(
-        actions.BulkUpdateRecord(table_id, row_ids, undo_values).simplify())
 
     # Invalidate the updated rows, just for the columns that got changed (and, as always,
     # anything that depends on them).
